@@ -313,6 +313,9 @@ func checkCoercions(p *Prog, l *Ledger) { checkCoercionsRule(p, l, "C02/I1-coerc
 // checkC02Shared: `+` renders a number the way দেখাও prints it (C15's text-function rule) and == / != compare numbers by
 // value, which Go's interface == does only if every number has the same representation (C16's universe rule).
 func checkC02Shared(p *Prog, l *Ledger) {
+	// == and != are total: the comparison isEqual falls back on cannot panic for any pair of values (C07's rule on
+	// interface comparisons: no two values of an uncomparable Go type — a struct with a func field, say — can meet there)
+	l.AsOnlyWhere(map[string]string{"C07/P2-iface-compare": "C02/S3-equality/total"}, func(o *Obligation) bool { return strings.HasPrefix(o.Pos, "interpreter/") }, func() { checkC07(p, l) })
 	l.As(map[string]string{"C15/S2-text-function": "C02/S4-concatenation-text"}, func() { checkTextSites(p, l) })
 	l.AsOnly(map[string]string{"C16/S1-": "C02/S3-equality/one-representation/", "C16/S3-": "C02/S3-equality/syntactic-origin/"}, func() { checkC16(p, l) })
 }
